@@ -56,6 +56,9 @@ func init() {
 	})
 	regSafety("C05", mkC05, shC05)
 	regSafety("C07", mkC07, shC07)
+	replayers["C07"] = append(replayers["C07"], func(vals []int, keepLog bool) *sim.World {
+		return RunWatchOnlySolo(&ReplaySrc{Vals: vals}, mkC07(), keepLog)
+	})
 	regSafety("C11", mkC11, shC11)
 	regSafety("C12", mkC12, shC12)
 	replayers["C12"] = append(replayers["C12"], func(vals []int, keepLog bool) *sim.World {
@@ -179,10 +182,26 @@ func TestC05(t *testing.T) {
 }
 
 func TestC07(t *testing.T) {
-	runProp(t, "C07", func(e *Env) func(*rapid.T) {
-		return SafetyProp(e, mkC07, shC07, func(w *sim.World) bool {
-			return (w.Stats["c07_commit_checked"] > 0 && (w.Stats["early_delivery"] > 0 || w.Stats["c07_preblock_failed"] > 0)) || w.Stats["c07_precommit_while_off"] > 0
+	SkipUnlessSelected(t, "C07")
+	e := GetEnv("C07")
+	defer e.Flush()
+	rapid.Check(t, SafetyProp(e, mkC07, shC07, func(w *sim.World) bool {
+		return (w.Stats["c07_commit_checked"] > 0 && (w.Stats["early_delivery"] > 0 || w.Stats["c07_preblock_failed"] > 0)) || w.Stats["c07_precommit_while_off"] > 0
+	}))
+	if t.Failed() {
+		return
+	}
+	// "... and watch-only observers": the flagged validator whose peers relay its own earlier pre-commit / commit
+	rapid.Check(t, func(t *rapid.T) {
+		src := &RapidSrc{T: t}
+		w := RunWatchOnlySolo(src, mkC07(), false)
+		fatal := e.Report(w, src.Rec, func() string {
+			return RunWatchOnlySolo(&ReplaySrc{Vals: src.Rec}, mkC07(), true).Render()
 		})
+		e.Case(FPInts(src.Rec), w.Stats["c13_own_proposal_around"] > 0 && w.Stats["amev"] > 0, w.Stats, func() any { return sampleOf(w, src.Rec) })
+		if fatal != "" {
+			t.Fatalf("%s", fatal)
+		}
 	})
 }
 
